@@ -4,6 +4,9 @@
 package app
 
 import (
+	"encoding/json"
+
+	sdk "github.com/cosmos/cosmos-sdk/types"
 	bankkeeper "github.com/cosmos/cosmos-sdk/x/bank/keeper"
 
 	"github.com/ovrclk/akash/x/audit"
@@ -37,4 +40,9 @@ func (app *AkashApp) VerifKeepers() VerifKeepers {
 		Audit:      app.keeper.audit,
 		Cert:       app.keeper.cert,
 	}
+}
+
+// VerifExportGenesis exports the genesis state of every module from ctx (which may be an uncommitted branch).
+func (app *AkashApp) VerifExportGenesis(ctx sdk.Context) map[string]json.RawMessage {
+	return app.mm.ExportGenesis(ctx, app.appCodec)
 }
